@@ -187,6 +187,12 @@ func (c *ATConn) createNewTxOnExecIfNeed(ctx context.Context, f func() (types.Ex
 
 	ret, err := f()
 	if err != nil {
+		if tx != nil {
+			// the implicit transaction of this statement must not stay open on the connection
+			if rollbackErr := tx.Rollback(); rollbackErr != nil {
+				log.Errorf("conn at rollback error:%v", rollbackErr)
+			}
+		}
 		return nil, err
 	}
 
